@@ -36,6 +36,24 @@ def run(R):
         check_pty_close(c, repo.func('pty_spawn:spawn.close'))
     with R.clause('D2', 'ORDER', floor=8, desc='closed objects refuse I/O; descriptor uses read self.child_fd at the time of use') as c:
         check_fd_uses(c, repo)
+    with R.clause('D6', 'ALIVE', floor=4, desc='fd / socket isalive(): closed -> False, valid descriptor -> True') as c:
+        f = repo.func('fdpexpect:fdspawn.isalive')
+        g = f.cfg
+        t0 = [t for t in g.nodes if t.kind == 'test' and norm(t.ast) == 'self.child_fd == -1']
+        r0 = [r for t in t0 for r in guard_region(g, t, 'true') if r.kind == 'stmt' and isinstance(r.ast, ast.Return) and is_const(r.ast.value, False)]
+        c.check(len(t0) == 1 and len(r0) == 1, f, t0[0].ast if t0 else None, 'a closed fdspawn is never reported alive', kind='path', tag='fd-closed-false')
+        trs = [t for t in iter_nodes(f.node) if isinstance(t, ast.Try)]
+        ok = len(trs) == 1 and any(dotted(k.func) == 'os.fstat' and norm(k.args[0]) == 'self.child_fd' for s in trs[0].body for k in calls_in(s)) and \
+            any(isinstance(s, ast.Return) and is_const(s.value, True) for s in trs[0].body) and \
+            all(any(isinstance(s, ast.Return) and is_const(s.value, False) for s in h.body) for h in trs[0].handlers) and trs[0].handlers
+        c.check(ok, f, trs[0] if trs else None, 'alive iff os.fstat(self.child_fd) succeeds', kind='ast', tag='fd-fstat')
+        if trs:
+            tn = g.node_of_stmt(trs[0].body[0])
+            c.check(tn is not None and bool(t0) and g.dominated_by(tn, {t0[0]})[0], f, trs[0], 'the closed test comes first', tag='fd-order')
+        f = repo.func('socket_pexpect:SocketSpawn.isalive')
+        rr = returns(f)
+        c.check(len(rr) == 1 and norm(rr[0].ast.value) == 'self.socket.fileno() >= 0', f, rr[0].ast if rr else None,
+                'a socket is alive iff its descriptor is valid (closed sockets report -1)', witness=norm(rr[0].ast.value) if rr else '', kind='ast', tag='socket-alive')
     with R.clause('D3', 'ORDER', floor=1, desc='kill() signals only a child it believes alive') as c:
         f = repo.func('pty_spawn:spawn.kill')
         g = f.cfg
@@ -254,6 +272,7 @@ MUTANTS = [
     ('socket-close-skipped-after-eof', 'socket_pexpect', "        self.socket.shutdown(socket.SHUT_RDWR)\n        self.socket.close()\n        self.child_fd = -1", "        if not self.flag_eof:\n            self.socket.shutdown(socket.SHUT_RDWR)\n            self.socket.close()\n        self.child_fd = -1", 'D1'),
     ('pty-close-marks-in-finally', 'pty_spawn', "        with _wrap_ptyprocess_err():\n            # PtyProcessError may be raised if it is not possible to terminate\n            # the child.\n            self.ptyproc.close(force=force)\n        self.isalive()  # Update exit status from ptyproc\n        self.child_fd = -1\n        self.closed = True",
      "        try:\n            with _wrap_ptyprocess_err():\n                self.ptyproc.close(force=force)\n            self.isalive()  # Update exit status from ptyproc\n        finally:\n            self.child_fd = -1\n            self.closed = True", 'D1'),
+    ('fd-isalive-inverted', 'fdpexpect', "        if self.child_fd == -1:\n            return False\n        try:", "        if self.child_fd != -1:\n            return False\n        try:", 'D6'),
     ('pty-close-force-dropped', 'pty_spawn', "            self.ptyproc.close(force=force)", "            self.ptyproc.close(force=False)", 'D1'),
     ('pty-close-closed-only-if-dead', 'pty_spawn', "        self.isalive()  # Update exit status from ptyproc\n        self.child_fd = -1\n        self.closed = True", "        if not self.isalive():  # Update exit status from ptyproc\n            self.child_fd = -1\n        self.closed = True", 'D1'),
     ('read-cached-fd', 'spawnbase', "            s = os.read(self.child_fd, size)", "            s = os.read(self._fd_cache, size)", 'D2'),
